@@ -1,2 +1,40 @@
-(* Run/C15.v *)
-From Cedar Require Export Run.StreamRun.
+(* Run/C15.v — stream-level hand-off cases (shared comparator) plus blob parser/serialiser cases. *)
+From Coq Require Import List NArith Bool.
+From Cedar Require Export Run.StreamRun Model.Blob.
+Import ListNotations.
+Local Open Scope N_scope.
+
+Module SR := Cedar.Run.StreamRun.
+
+Inductive case :=
+| CS (c : SR.case)
+(* NewStreamWithCryptoState on arbitrary bytes: observed rejection, or the fields it installed
+   (flags masked to the six known bits; peer = "" when the blob's peer field is empty) *)
+| CParse (bs : bytes) (obs : option rawblob)
+(* ExportCryptoState: the observed blob bytes for the given field values *)
+| CSer (b : rawblob) (obs : bytes).
+
+Definition rb_eqb (a b : rawblob) : bool :=
+  (N.land (rb_flags a) 63 =? N.land (rb_flags b) 63) && bytes_eqb (rb_key a) (rb_key b) &&
+  bytes_eqb (rb_eiv a) (rb_eiv b) && bytes_eqb (rb_div a) (rb_div b) &&
+  (rb_ectr a =? rb_ectr b) && (rb_dctr a =? rb_dctr b) &&
+  bytes_eqb (rb_sdg a) (rb_sdg b) && bytes_eqb (rb_rdg a) (rb_rdg b) && bytes_eqb (rb_peer a) (rb_peer b).
+
+Definition check_case (c : case) : bool :=
+  match c with
+  | CS c0 => SR.check_case c0
+  | CParse bs obs =>
+      match parse bs, obs with
+      | None, None => true
+      | Some a, Some b => rb_eqb a b
+      | _, _ => false
+      end
+  | CSer b obs => bytes_eqb (ser b) obs
+  end.
+
+Fixpoint mism (i : nat) (cs : list case) : list nat :=
+  match cs with
+  | [] => []
+  | c :: r => if check_case c then mism (S i) r else i :: mism (S i) r
+  end.
+Definition mismatches (cs : list case) : list nat := mism 0 cs.
